@@ -1198,6 +1198,13 @@ func c12(c *Ctx) {
 			tags = append(tags, "in-known-variant-region")
 		}
 		sres, ran := shellRes[i]
+		for try := 0; ran && cs.kind == "corpus" && sres == "timeout" && try < 3; try++ {
+			// corpus lines (known findings among them) are worth waiting for
+			rdir := scratchDir(c)
+			sres = c12Shell(c, map[bool]string{false: "bash", true: "dash"}[cs.posix], rdir, 0, cs.src)
+			os.RemoveAll(rdir)
+			c.Hist["shell-rerun"]++
+		}
 		if ran && (sres == "acc" || sres == "rej") && sres != mSh && !c12OracleQuirk(cs.posix, cs.ts) {
 			// a disagreement with the grammar is re-run alone before it is believed (loaded machines
 			// kill or starve child processes now and then)
